@@ -281,6 +281,9 @@ type Outer struct {
 	S
 }
 
+// a defined container type that is not itself @testonly
+type HL []*Helper
+
 type Q struct{}
 
 // an unannotated METHOD that shares the name of the function Mock
@@ -348,6 +351,11 @@ const c03SrcE8 = `package d
 func Results() (out [2]Helper, ch chan Helper) { return } // E8-ARRAY-RESULT
 `
 
+const c03SrcE9 = `package d
+
+var list9 = HL{{X: 1}} // E9-DEFINED-CONTAINER
+`
+
 const c03SrcE3 = `package d
 
 func Local() int {
@@ -380,7 +388,7 @@ func ZZC03Edge() {
 	holes := []nd.Hole{{"annH", annH}, {"annF", annF}, {"annW", annW}, {"annM", annM}}
 	files := []nd.File{{Pkg: "zzmod/d", Name: "d.go", Src: c03SrcED}, {Pkg: "zzmod/d", Name: "e1.go", Src: c03SrcE1}, {Pkg: "zzmod/d", Name: "e2.go", Src: c03SrcE2},
 		{Pkg: "zzmod/d", Name: "e2b.go", Src: c03SrcE2b}, {Pkg: "zzmod/d", Name: "e3.go", Src: c03SrcE3}, {Pkg: "zzmod/u", Name: "u.go", Src: c03SrcEU},
-		{Pkg: "zzmod/d", Name: "e4.go", Src: c03SrcE4}, {Pkg: "zzmod/d", Name: "e5.go", Src: c03SrcE5}, {Pkg: "zzmod/d", Name: "e6.go", Src: c03SrcE6}, {Pkg: "zzmod/d", Name: "e7.go", Src: c03SrcE7}, {Pkg: "zzmod/d", Name: "e8.go", Src: c03SrcE8}}
+		{Pkg: "zzmod/d", Name: "e4.go", Src: c03SrcE4}, {Pkg: "zzmod/d", Name: "e5.go", Src: c03SrcE5}, {Pkg: "zzmod/d", Name: "e6.go", Src: c03SrcE6}, {Pkg: "zzmod/d", Name: "e7.go", Src: c03SrcE7}, {Pkg: "zzmod/d", Name: "e8.go", Src: c03SrcE8}, {Pkg: "zzmod/d", Name: "e9.go", Src: c03SrcE9}}
 	prog := nd.LoadProgram(files, holes)
 	cfg := config.Default()
 	rd := Analyze(prog, cfg, "zzmod/d", Facts{}, "tonl")
@@ -410,6 +418,8 @@ func ZZC03Edge() {
 		{"/zz/zzmod/d/e6.go", nd.LineOf(c03SrcE6, "E6-MAP-FIELD"), "TONL01", tH},
 		{"/zz/zzmod/d/e7.go", nd.LineOf(c03SrcE7, "E7-SLICE-LIT"), "TONL01", tH},
 		{"/zz/zzmod/d/e8.go", nd.LineOf(c03SrcE8, "E8-ARRAY-RESULT"), "TONL01", tH},
+		// elided elements under a defined container type: only the elided literal itself is a use of Helper
+		{"/zz/zzmod/d/e9.go", nd.LineOf(c03SrcE9, "E9-DEFINED-CONTAINER"), "TONL01", tH},
 		{f2, nd.LineOf(c03SrcE2, "E2-ELIDED-PTR"), "TONL01", tH},
 		{f2b, nd.LineOf(c03SrcE2b, "E2B-ELIDED-MAP"), "TONL01", tH},
 		// e3.go: the only Helper there is a function-local type: nothing
